@@ -387,7 +387,7 @@ class K3State:
         return r
 
     def re_whitespace(self, I, args, kwargs, node):
-        return collapse_ws(args[0])
+        return collapse_ws(args[0], I)
 
     def chain(self, I, args, kwargs, node):
         raise Unsupported('__chain')
@@ -509,12 +509,25 @@ class KText(V):
         self.count = f
 
 
-def collapse_ws(v):
-    """re.compile(r'\\s+').sub(' ', s): exact on constants, uninterpreted otherwise"""
+def collapse_ws(v, I=None):
+    """re.compile(r'\\s+').sub(' ', s): exact on constants, uninterpreted otherwise (with the
+    fact that a non-whitespace character of a constant piece of the subject survives)"""
     t = z3.simplify(models.strterm(v))
-    if z3.is_string_value(t):
-        return VStr(re.sub(r'\s+', ' ', models.decode_z3_string(t.as_string())))
     f = z3.Function('collapse_ws', z3.StringSort(), z3.StringSort())
+    if z3.is_string_value(t):
+        exact = re.sub(r'\s+', ' ', models.decode_z3_string(t.as_string()))
+        if I is not None:
+            # the uninterpreted function agrees with the real one on this constant (a spec-side
+            # term that equals the constant only under the path condition then resolves too)
+            I.assume(f(t) == z3.StringVal(exact))
+        return VStr(exact)
+    if I is not None and z3.is_app(t) and t.decl().kind() == z3.Z3_OP_SEQ_CONCAT:
+        for ch in t.children():
+            if z3.is_string_value(ch):
+                keep = [c for c in models.decode_z3_string(ch.as_string()) if not c.isspace()]
+                if keep:
+                    I.assume(z3.Contains(f(t), z3.StringVal(keep[0])))
+                    break
     return VStr(f(t))
 
 
@@ -819,7 +832,7 @@ def k3_prims():
 
     def normalize(I, a, k, n):
         """the message-id normalisation: whitespace collapsed, then trimmed"""
-        return models.str_method(I, collapse_ws(a[0]).t, 'strip', [], {})
+        return models.str_method(I, collapse_ws(a[0], I).t, 'strip', [], {})
 
     def i18n0(I, a, k, n):
         d, c, t = I.ghost['i18n0']
@@ -984,6 +997,21 @@ def k3_entry(em, spec):
         st = K3State(I, em, spec)
         I.ghost['k3'] = st
         env_.update(st.env())
+        # prologue assignments the hand-built environment does not know (a local the compiler
+        # started to emit): executed as written; what cannot be evaluated is an opaque value
+        saved = getattr(I, 'env', None)
+        I.env = env_
+        try:
+            for s in em.prologue:
+                if isinstance(s, ast.Assign) and len(s.targets) == 1 and \
+                        isinstance(s.targets[0], ast.Name) and s.targets[0].id not in env_:
+                    nm = s.targets[0].id
+                    try:
+                        I.exec_stmt(s)
+                    except (Unsupported, Raised):
+                        env_[nm] = fresh(ANY, 'prologue_' + nm.strip('_'))
+        finally:
+            I.env = saved
     return entry
 
 
